@@ -52,3 +52,21 @@ func VerifC17_BinaryRejectLen() {
 	vcheck("entity-unchanged", e == old)
 	vreach("end")
 }
+
+// JSON codec of entity handles. encoding/json itself is modelled as an ideal codec for the
+// value handed to Marshal (an opaque blob that Unmarshal restores); what is decided is the
+// library code around it for all 2^64 handles.
+func VerifC17_JSONRoundTrip() {
+	e := Entity{entityID(vU32("id")), vU32("gen")}
+	data, err := e.MarshalJSON()
+	vcheck("marshal-no-error", err == nil)
+	var d Entity
+	err2 := d.UnmarshalJSON(data)
+	vcheck("unmarshal-no-error", err2 == nil)
+	vcheck("roundtrip", d == e)
+	old := Entity{entityID(vU32("old.id")), vU32("old.gen")}
+	keep := old
+	vcheck("garbage-rejected", old.UnmarshalJSON([]byte{1, 2, 3}) != nil)
+	vcheck("entity-unchanged-on-error", old == keep)
+	vreach("end")
+}
